@@ -100,25 +100,6 @@ def run(ctx):
         if a != b or ea != eb or [float(x) for x in r.history.beta] != [float(x) for x in r2.history.beta]:
             ctx.violation(f"depends-on-cadence-or-enlargement:{r.cfg['seed']}",
                           f"log_evidence {a} vs {b} when only checkpoint cadence / n_final_samples differ", {"cfg": r.cfg, "cfg2": c2})
-    # a second (and third) FRESH run on the same sampler object — a seed / schedule study that drives one sampler repeatedly: every
-    # run is a run of its own, its evidence the sum of ITS ratios over ITS populations
-    nreuse = 0
-    for r in [r for r in runs if r.error is None and r.cfg["kind"] != "emcee_smc"][: ctx.scale(4, 20)]:
-        prev = r
-        for k in range(2):
-            c2 = copy.deepcopy(r.cfg)
-            c2["ckpt"] = ("cb-every", "none")[k] if r.cfg["ckpt"] == "none" else ("none", "cb-every")[k]
-            c2["every"] = 2
-            r2 = sr.do_run(c2, retry_on=prev, vid0=20000 * (k + 1))
-            nreuse += 1
-            ctx.count(("reused-sampler", r.cfg["seed"], k), True, kind="reused-sampler")
-            extra = {"history": f"fresh run number {k + 2} on the same sampler object"}
-            if r2.error is not None:
-                ctx.violation(f"reused-sampler-raises:{r2.error[0]}", f"fresh run {k + 2} on a sampler that has already run: {r2.error[:2]}", dict({"cfg": c2}, **extra))
-                break
-            audit(r2, f"reused-sampler:{k}:{r.cfg['seed']}", extra)
-            prev = r2
-    ctx.extra["fresh_runs_on_a_used_sampler"] = nreuse
     # "... or on whether the run was checkpointed": a run interrupted by an exception in a user call and resumed from the last
     # checkpoint (the dictionary the callback kept, and its serialised form) is a run too: same recomputation, same evidence
     nres = 0
@@ -147,6 +128,25 @@ def run(ctx):
                     ctx.violation(f"depends-on-interruption:{route}:{r.cfg['seed']}",
                                   f"log_evidence {b} +- {eb} after interruption and resume, {a} +- {ea} uninterrupted", dict({"cfg": r.cfg}, **extra))
     ctx.extra["resumed_runs_audited"] = nres
+    # a second (and third) FRESH run on the same sampler object — a seed / schedule study that drives one sampler repeatedly: every
+    # run is a run of its own, its evidence the sum of ITS ratios over ITS populations
+    nreuse = 0
+    for r in [r for r in runs if r.error is None and r.cfg["kind"] != "emcee_smc"][: ctx.scale(4, 20)]:
+        prev = r
+        for k in range(2):
+            c2 = copy.deepcopy(r.cfg)
+            c2["ckpt"] = ("cb-every", "none")[k] if r.cfg["ckpt"] == "none" else ("none", "cb-every")[k]
+            c2["every"] = 2
+            r2 = sr.do_run(c2, retry_on=prev, vid0=20000 * (k + 1))
+            nreuse += 1
+            ctx.count(("reused-sampler", r.cfg["seed"], k), True, kind="reused-sampler")
+            extra = {"history": f"fresh run number {k + 2} on the same sampler object"}
+            if r2.error is not None:
+                ctx.violation(f"reused-sampler-raises:{r2.error[0]}", f"fresh run {k + 2} on a sampler that has already run: {r2.error[:2]}", dict({"cfg": c2}, **extra))
+                break
+            audit(r2, f"reused-sampler:{k}:{r.cfg['seed']}", extra)
+            prev = r2
+    ctx.extra["fresh_runs_on_a_used_sampler"] = nreuse
     for k, (ok, d) in tie.items():
         ctx.oblig(f"correspondence:IR-vs-impl:{k}", ok and bool(irall), d)
     ctx.extra["metamorphic_pairs"] = npairs
